@@ -116,7 +116,7 @@ BADARGS = ("(state == TrialState.COMPLETE and value_or_values is None) or "
            "((state == TrialState.PRUNED or state == TrialState.FAIL) and value_or_values is not None) or "
            "(state is not None and state != TrialState.COMPLETE and state != TrialState.PRUNED and state != TrialState.FAIL)")
 
-R.spec(T, "_tell_with_warning", props=["C02"],
+R.spec(T, "_tell_with_warning", props=["C02", "C20"],
        types={"trial": "Trial", "value_or_values": "Any", "study": "Study"},
        locals={"values": None},
        requires=["len(study._directions) >= 1"],
